@@ -326,7 +326,7 @@ fn registrations(tier: Tier) -> Vec<Vec<usize>> {
         if rev != set {
             out.push(rev);
         }
-        if set.len() == 3 || (tier == Tier::Thorough && set.len() == 4) {
+        if set.len() == 3 || (tier == Tier::Thorough && set.len() >= 4) {
             // all orders
             let mut perm = set.clone();
             permute(&mut perm, 0, &mut out);
@@ -369,7 +369,7 @@ pub fn property(tier: Tier) -> Property {
     let sec = Section::new(
         "routes-in-process",
         Config::default(),
-        "cases: registrations = every non-empty subset of the generated fixture services {a.Sv, a.SvX, a.sv, Sv, x.a.Sv} (names that are prefixes / case variants / package-less variants of one another; methods M, MN, m) in given and reversed order (all orders for 3-subsets, thorough also 4-subsets), via Routes::add_service or RoutesBuilder, plain / with_interceptor / GrpcWebLayer wrapping x request paths = for every known and unknown (S, M): exact, with query, trailing slash, extra segment, one char added or removed at either end of S and M, case flips, doubled/empty segments, percent-encoded letters and dot, dot segments, nested repeats, /S, /, //, * (quick: a rotating quarter of the paths for subsets larger than 2). Oracle RefRouter: handler (S, M) runs iff the path component equals /S/M with S registered; otherwise no handler runs and grpc-status is 12. Non-trivial = every case except the 3 shortest paths.",
+        "cases: registrations = every non-empty subset of the generated fixture services {a.Sv, a.SvX, a.sv, Sv, x.a.Sv} (names that are prefixes / case variants / package-less variants of one another; methods M, MN, m) in given and reversed order (all orders for 3-subsets, thorough all orders of every subset), via Routes::add_service or RoutesBuilder, plain / with_interceptor / GrpcWebLayer wrapping x request paths = for every known and unknown (S, M): exact, with query, trailing slash, extra segment, one char added or removed at either end of S and M, case flips, doubled/empty segments, percent-encoded letters and dot, dot segments, nested repeats, /S, /, //, * (quick: a rotating quarter of the paths for subsets larger than 2). Oracle RefRouter: handler (S, M) runs iff the path component equals /S/M with S registered; otherwise no handler runs and grpc-status is 12. Non-trivial = every case except the 3 shortest paths.",
         cases,
         |c: &Case| format!("order={:?} wrap={:?} builder={} path={}", c.order.iter().map(|s| SERVICES[*s]).collect::<Vec<_>>(), c.wrap, c.builder, c.path),
         body,
